@@ -78,7 +78,7 @@ func (delegReinvestRewardsTx) Validate(ctx *action.Context, signedTx action.Sign
 	if !ok {
 		return false, errors.Wrap(action.ErrInvalidCurrency, invest.Amount.Currency)
 	}
-	if currency.Name != invest.Amount.Currency {
+	if currency.Name != invest.Amount.Currency || !invest.Amount.IsValid(ctx.Currencies) {
 		return false, errors.Wrap(action.ErrInvalidAmount, invest.Amount.String())
 	}
 
